@@ -51,11 +51,13 @@ def jobs(tier):
     js.append({"lots": ["fee"], "events": ["sell+fee", "move"], "method": "fifo", "sell_all": False})
     js.append({"lots": ["all"], "events": ["sell+fee"], "method": "fifo", "sell_all": True})
     js.append({"lots": ["wf", "fee"], "events": ["sell+all"], "method": "lifo", "sell_all": True})
+    for m in ("fifo", "lifo", "hifo", "lofo") if tier == "thorough" else ("lifo", "lofo"):
+        js.append({"lots": ["nf", "wf"], "events": ["sell+fee", "feeonly+sff"], "method": m, "sell_all": True})
+        js.append({"lots": ["earn", "fee"], "events": ["gift+fee", "sell+fo"], "method": m, "sell_all": False})
     if tier == "thorough":
         for m in ("fifo", "lifo", "hifo", "lofo"):
             js.append({"lots": ["plain", "all", "fee"], "events": ["sell+all", "move"], "method": m, "sell_all": False})
-            js.append({"lots": ["nf", "wf"], "events": ["sell+fee", "feeonly+sff"], "method": m, "sell_all": True})
-            js.append({"lots": ["earn", "fee"], "events": ["gift+fee", "sell+fo"], "method": m, "sell_all": False})
+            js.append({"lots": ["fee", "earn", "all"], "events": ["sell+fee+sff", "feeonly"], "method": m, "sell_all": True})
     return js
 
 
